@@ -19,6 +19,16 @@ class MachineryError(Exception):
     pass
 
 
+def _die_with_parent():
+    """a TLC started by a check must not outlive it (Linux: PR_SET_PDEATHSIG)"""
+    try:
+        import ctypes
+        import signal
+        ctypes.CDLL('libc.so.6').prctl(1, signal.SIGKILL)
+    except Exception:  # noqa: BLE001
+        pass
+
+
 def fresh_dir(name: str) -> str:
     d = os.path.join(OUT, name)
     shutil.rmtree(d, ignore_errors=True)
@@ -63,7 +73,7 @@ def run_tlc(module: str, cfg: str, env: dict, metadir: str, *, workers=1, timeou
     e.update(env)
     t0 = time.time()
     try:
-        p = subprocess.run(cmd, env=e, cwd=SPEC, capture_output=True, text=True, timeout=timeout)
+        p = subprocess.run(cmd, env=e, cwd=SPEC, capture_output=True, text=True, timeout=timeout, preexec_fn=_die_with_parent)
     except subprocess.TimeoutExpired as ex:
         subprocess.run(['pkill', '-f', metadir], check=False)
         raise MachineryError(f'TLC timed out after {timeout}s on {module}') from ex
